@@ -53,13 +53,14 @@ def brief(sc, oi):
 
 
 def run_generic(ctx, prop, bits, what, n_quick, n_thorough, softs=False, small=True, tree=False, hist=False, tag=None, ninst=1, soft_bias=False,
-                free=False, rls=False, hooks=False, extra=None):
+                free=False, rls=False, hooks=False, extra=None, olists=False):
     """bits: mask of s_check bits that are violations of this property; bit 1 (terms) is always the tie (A)"""
     rnd = random.Random("%s-%s-%d" % (prop, tag or "", ctx.seed)) if tag else random.Random("%s-%d" % (prop, ctx.seed))
     n = n_quick if ctx.quick() else n_thorough
     def gen(r):
         g = solvegen.Gen(r, small=small, tree=tree, hist=hist, ninst=ninst, soft_bias=soft_bias, free=free, rls=rls)
         g.hooks = hooks
+        g.olists = olists
         return g.scenario(ncalls=3, softs=softs)
     scenarios = [gen(rnd) for _ in range(n)]
     stats = {"evaluations": 0, "outcomes": {}, "nowt": 0}
